@@ -68,6 +68,10 @@ func (e *Engine) runFunctionUnit(u *Unit) {
 			cv := st.load(r.A)
 			cv.T = pt.Elem()
 			env.vars[fv.Name()] = cv
+			if u.entryFreeVars == nil {
+				u.entryFreeVars = map[string]Val{}
+			}
+			u.entryFreeVars[fv.Name()] = cv
 		}
 		fr.freeVars = append(fr.freeVars, r)
 	}
@@ -126,6 +130,9 @@ func (e *Engine) unitReturn(st *State, fr *Frame, results []Val, pos token.Pos) 
 	}
 	fn := u.Fn
 	env := &Env{eng: e, st: st, pkg: e.pkgOf(fn), vars: map[string]Val{}, oldSnap: st.unitOld, hasOld: true, where: "ensures of " + u.Name}
+	for k, v := range u.entryFreeVars {
+		env.vars[k] = v // captured variables: their values at entry, like parameters
+	}
 	for _, p := range fn.Params {
 		env.vars[p.Name()] = fr.regs[p]
 	}
